@@ -117,6 +117,19 @@ def check(ctx):
                 ctx.ob("names.identifier", f, q, False,
                        "%s renders a class through __qualname__, which is not an identifier for function-local classes "
                        "('f.<locals>.C'): the stub is not valid Python for them" % f.qualname, node=q)
+    # free text of the schema (help, short_help, a friendly name, a docstring) is not Python: it may span lines, contain quotes or
+    # a '#'.  It may only reach the stub as a literal built by repr() / !r, or cut to one line and stripped of line breaks
+    FREE_TEXT = ("help", "short_help", "__doc__", "description")
+    for f in [x for x in an.fns() if x.module.short == "stubs" and x.node is not None]:
+        for x in ast.walk(f.node):
+            if isinstance(x, ast.Attribute) and x.attr in FREE_TEXT and isinstance(x.ctx, ast.Load):
+                par = getattr(x, "_parent", None)
+                safe = (isinstance(par, ast.Call) and isinstance(par.func, ast.Name) and par.func.id in ("repr", "ascii", "bool", "len")) or \
+                    (isinstance(par, ast.FormattedValue) and par.conversion in (ord("r"), ord("a")))
+                ctx.ob("text.no-free-text", f, x, safe,
+                       "schema text enters the stub only as a Python literal" if safe else
+                       "%s puts %s into the stub: a help text of several lines (or with a line break in its first paragraph) continues on the "
+                       "next line as code -- the stub is not valid Python" % (f.qualname, ast.unparse(x)), node=x)
     # str() of a typing generic (typing.List[C]) spells its arguments with __qualname__ as well
     for f in stub_fns:
         ftf = an.ft(f)
